@@ -598,6 +598,15 @@ func run(c *harness.Ctx, i int) {
 			cmd.SysProcAttr = &syscall.SysProcAttr{Credential: &syscall.Credential{Uid: 65534, Gid: 65534}}
 		}
 		err = cmd.Run()
+		if unpriv && err != nil && strings.Contains(err.Error(), "fork/exec") && strings.Contains(err.Error(), "permission denied") {
+			// the unprivileged user cannot even start the binary (the scratch directory lies below a directory closed
+			// to others, as under /root): the case cannot be set up here
+			for k := range unreadable {
+				os.Chmod(filepath.Join(b.dir, k), 0644)
+			}
+			c.Skip("the command cannot be started as an unprivileged user from %s", cli)
+			return
+		}
 	}
 	if len(unreadable) > 0 {
 		// it may fail (it cannot read everything); it must not have removed what it could not read
